@@ -34,7 +34,7 @@ def mc(scn, w, tag, fix, trace=None, checks=None):
     defs = {"MC_Consumers": fam.tla_set(cons),
             "MC_Kind": fam.tla_fun("MC_Consumers", {c: '"%s"' % scn["consumers"][c]["kind"] for c in cons}, '"link"'),
             "MC_Undo": fam.tla_fun("MC_Consumers", {c: fam.tla_bool(scn["consumers"][c]["undo"]) for c in cons}, "FALSE")}
-    consts = {"Consumers": "<-MC_Consumers", "Kind": "<-MC_Kind", "Undo": "<-MC_Undo", "TDel": '"%s"' % scn["tdel"], "TDrain": '"%s"' % scn["tdrain"],
+    consts = {"Consumers": "<-MC_Consumers", "Kind": "<-MC_Kind", "Undo": "<-MC_Undo", "TDel": '"%s"' % scn["tdel"], "TDrain": '"%s"' % scn["tdrain"], "TNote": '"tm.drained"',
               "Fix_LinkRace": fam.tla_bool(fix), "StateChecked": fam.tla_bool(scn["tk"] in ("pid", "name") and scn["term"] == "kill")}
     name = "MC_Rel_%s%s" % (scn["name"], tag)
     if trace:
